@@ -1001,6 +1001,7 @@ class UKF:
         _assert_numerical_iterable(gyr, 'Tri-axial gyroscope sample')
         _assert_numerical_iterable(acc, 'Tri-axial accelerometer sample')
         dt = self.Dt if dt is None else dt
+        q = np.array(q, dtype=float)            # Plain array: the sums below are element-wise, also for a given Quaternion object
         ## Prediction
         # 1. Generate sigma points
         sigma_points = self.compute_sigma_points(q, self.P)
